@@ -122,6 +122,8 @@ func runC07(p *Prog, r *Report) {
 	ruleFrame(p, r, frameCfg{pkg: "shaping", typ: "Input", entries: []fnRef{{"shaping", "Segmenter", "Split"}},
 		exclude: []fnRef{{"shaping", "Segmenter", "reset"}}, forbidden: []string{"Text", "Size", "FontFeatures"}, floor: 6})
 	le := newLitEval(p)
+	r.Explain = append(r.Explain, "R-BISECT: every sort.Search whose predicate indexes a package-level table literal requires that table to be sorted by the compared key (evaluated from the literal).")
+	ruleBisect(p, r, le)
 	ruleSortedList(p, r, le, "shaping", "pairedDelims", 60)
 	ruleSortedRanges(p, r, le, "language", "ScriptRanges", "Start", "End", 900)
 	r.Assumptions = append(r.Assumptions, "golang.org/x/text/unicode/bidi.Paragraph.SetString is the documented full reset of the bidi object (not analysed)")
